@@ -237,6 +237,15 @@ class Builder:
             mb = objective(mb)
         if order == "with_all":
             mb = I.call_fn(MB + "::with_all", [mb, ListV(cons)])
+        elif order == "with+with_all":
+            # rows added one by one, then a batch, then another batch: every call adds to what is there
+            k1 = max(1, len(cons) // 3) if len(cons) > 1 else len(cons)
+            k2 = max(k1, (2 * len(cons)) // 3)
+            for c in cons[:k1]:
+                mb = I.call_fn(MB + "::with", [mb, c])
+            if cons[k1:k2]:
+                mb = I.call_fn(MB + "::with_all", [mb, ListV(cons[k1:k2])])
+            mb = I.call_fn(MB + "::with_all", [mb, ListV(cons[k2:])])
         else:
             for c in cons:
                 mb = I.call_fn(MB + "::with", [mb, c])
@@ -340,7 +349,7 @@ def check(F, R, Gm, tier="quick"):
         key = md["label"].replace(" ", "-")
         text = text_model(md)
         want = text_side(RT, text)
-        orders = ("obj-last", "obj-first", "with_all") if (tier == "thorough" or k % 7 == 0) else ("obj-last",)
+        orders = ("obj-last", "obj-first", "with_all", "with+with_all") if (tier == "thorough" or k % 7 == 0) else (("obj-last", "with+with_all") if len(md["cons"]) >= 3 or k % 5 == 0 else ("obj-last",))
         for order in orders:
             try:
                 mb = B.model(md, order)
